@@ -1127,6 +1127,11 @@ func c12Body(c *run.Ctx) {
 	}
 	c.Gauge("exhaustive_len2_strings", 1)
 
+	// 1b. streams: several inputs printing zero or more values each, under every kind of output mode
+	for _, t := range c12StreamCases(c.Rand("c12.streams"), c.N(300, 6000)) {
+		kC12Stream.Do(c, t)
+	}
+
 	// 2. fixed classes: floats, number literals, special strings (library and command)
 	{
 		var vs []any
